@@ -40,7 +40,19 @@ def run(ctx):
         for j in js:
             j.checks = 'safety'
         jobs += js
-    jobs.sort(key=common._cost)
+    # capacity invariants over API histories on FILE buffers (REJECT scanners carry a state stack sized from the buffer)
+    rej_action = lambda r: '{ if (vp_rej_req) REJECT; return %d; }' % r.num
+    for s in common.select(ctx, corpus.specs(names=['lit1'])):
+        for c in ([C('Cem'), C('r', api='r')]):
+            for rej in (True, False):
+                if True:
+                    js, g = E.cap_jobs(ctx, s, c, timeout=(240 if quick else 900), checks='functional',
+                                       action=(rej_action if rej else None), tagx=('rej' if rej else ''))
+                    if not g.ok:
+                        common.gen_ok(ctx, g, s, c, 'CAP')
+                        continue
+                    jobs += js
+    jobs.sort(key=lambda j: (0 if j.meta.get('engine') == 'CAP' else 1, common._cost(j)))
     ctx.run_cbmc(jobs)
     common.std_assumptions(ctx)
     ctx.assume('user buffers and allocator blocks are exact-size objects, so an access one byte outside is an out-of-bounds object access for cbmc; fresh heap memory is nondeterministic, so a result that depends on uninitialised memory fails the comparison with the reference')
